@@ -902,9 +902,8 @@ impl MDL {
                 base_indices_index: self.model_data.meshes[part.mesh_index as usize].start_index
                     as u16
                     + shape_value.base_index as u16,
-                replacing_vertex_index: self.model_data.meshes[part.mesh_index as usize].start_index
-                    as u16
-                    + (part.vertices.len() - 1) as u16,
+                // an index into the mesh's own vertices, which is how the reader resolves it
+                replacing_vertex_index: (part.vertices.len() - 1) as u16,
             })
         }
 
